@@ -30,7 +30,7 @@ SIZE_CONFIGS = [
 ]
 # Findings this check knows about although /verif/known_findings.txt may not list them yet (the text for
 # known_findings.txt is in notes/C12.md); matched by signature exactly like entries of that file.
-BUILTIN_FINDINGS = [{'id': 'fp-control-leak', 'signature': 'finding fp-control-leak:'}]
+BUILTIN_FINDINGS = []    # moved to /verif/known_findings.txt
 TRUSTED = [
     "Lean 4.33.0 kernel (lake build); axioms admitted: propext, Classical.choice, Quot.sound only (audited with #print axioms on every theorem of Props/C12.lean each run)",
     "translators tools/translate/{swapasm,rebind,heaps}.py (anchored regular expressions over the C++/asm text, fail closed); the instruction semantics of lean/PikaVerif/Model/X86.lean (16 opcodes, aligned quad-word memory) - both are exercised on every run by the swapdiff correspondence (real routine vs compiled model, every register and written memory word compared)",
